@@ -185,7 +185,16 @@ func (f frame) String() string {
 		s += fmt.Sprintf("(%s)", fx(c))
 	}
 	if f.typ == sshFxpData && len(f.body) >= 8 {
-		s += fmt.Sprintf("(%q)", f.body[8:])
+		if d := f.body[8:]; len(d) > 64 {
+			// large payloads: length, a hash of the content and its first bytes (distinct contents stay distinct)
+			h := uint64(14695981039346656037)
+			for _, c := range d {
+				h = (h ^ uint64(c)) * 1099511628211
+			}
+			s += fmt.Sprintf("(%d bytes, fnv %016x, %q...)", len(d), h, d[:16])
+		} else {
+			s += fmt.Sprintf("(%q)", d)
+		}
 	}
 	if f.typ == sshFxpHandle && len(f.body) >= 8 {
 		s += fmt.Sprintf("(%q)", f.body[8:])
